@@ -8,25 +8,26 @@ import (
 
 func TestVerifReplay(t *testing.T) {
 	vrt.RunReplay(t, map[string]func(){
-		"VerifC01Quick":          VerifC01Quick,
-		"VerifC01Thorough":       VerifC01Thorough,
-		"VerifC17Walks":          VerifC17Walks,
-		"VerifC12SubmitQuick":    VerifC12SubmitQuick,
-		"VerifC12SubmitThorough": VerifC12SubmitThorough,
-		"VerifC06Quick":          VerifC06Quick,
-		"VerifC07AcceptQuick":    VerifC07AcceptQuick,
-		"VerifC07AcceptThorough": VerifC07AcceptThorough,
-		"VerifC07AcceptV1":       VerifC07AcceptV1,
-		"VerifC07XSign":          VerifC07XSign,
-		"VerifC05Quick":          VerifC05Quick,
-		"VerifC17Walks2":         VerifC17Walks2,
-		"VerifC18Quick":          VerifC18Quick,
-		"VerifC18Thorough":       VerifC18Thorough,
-		"VerifC03Quick":          VerifC03Quick,
-		"VerifC03Thorough":       VerifC03Thorough,
-		"VerifC02TxQuick":        VerifC02TxQuick,
-		"VerifC02TxThorough":     VerifC02TxThorough,
-		"VerifC01Deep":           VerifC01Deep,
-		"VerifC01AnyStart":       VerifC01AnyStart,
+		"VerifC01Quick":            VerifC01Quick,
+		"VerifC01Thorough":         VerifC01Thorough,
+		"VerifC17Walks":            VerifC17Walks,
+		"VerifC12SubmitQuick":      VerifC12SubmitQuick,
+		"VerifC12SubmitThorough":   VerifC12SubmitThorough,
+		"VerifC06Quick":            VerifC06Quick,
+		"VerifC07AcceptQuick":      VerifC07AcceptQuick,
+		"VerifC07AcceptThorough":   VerifC07AcceptThorough,
+		"VerifC07AcceptV1":         VerifC07AcceptV1,
+		"VerifC07XSign":            VerifC07XSign,
+		"VerifC07AccountInitiator": VerifC07AccountInitiator,
+		"VerifC05Quick":            VerifC05Quick,
+		"VerifC17Walks2":           VerifC17Walks2,
+		"VerifC18Quick":            VerifC18Quick,
+		"VerifC18Thorough":         VerifC18Thorough,
+		"VerifC03Quick":            VerifC03Quick,
+		"VerifC03Thorough":         VerifC03Thorough,
+		"VerifC02TxQuick":          VerifC02TxQuick,
+		"VerifC02TxThorough":       VerifC02TxThorough,
+		"VerifC01Deep":             VerifC01Deep,
+		"VerifC01AnyStart":         VerifC01AnyStart,
 	})
 }
